@@ -723,8 +723,8 @@ func genProgram(r *gen.R, maxNodes int) *program {
 		}
 		p.addInput(p.fresh("in"), t, dims)
 	}
-	// sometimes an initializer that is also a graph input (default value), overridden or not
-	if r.Chance(0.3) {
+	// sometimes initializers that are also graph inputs (default values), each overridden or not
+	for nd := r.PickInt(0, 0, 0, 0, 1, 1, 2, 3); nd > 0; nd-- {
 		def := uniformT(r, ref.F32, r.PickShape([]int{r.Range(1, 3), r.Range(1, 4)}, []int{r.Range(1, 3), r.Range(1, 4)}, []int{r.Range(1, 4)}, []int{}), 2)
 		name := p.fresh("dflt")
 		p.Inits = append(p.Inits, mon.GInit{Name: name, T: def, Raw: r.Bool()})
